@@ -40,7 +40,7 @@ type Case struct {
 	EncOpts []opt.Spec `json:"enc_opts"`  // given to NewEncoder (entries 2..4) or first part of the call options
 	Opts    []opt.Spec `json:"call_opts"` // given to the Marshal* call
 	Funcs   []FuncSpec `json:"funcs,omitempty"`
-	Entry   int        `json:"entry"` // 0 Marshal, 1 MarshalWrite, 2 MarshalEncode depth 0, 3 nested in array, 4 nested in object
+	Entry   int        `json:"entry"` // 0 Marshal, 1 MarshalWrite, 2 MarshalEncode depth 0, 3 nested in array, 4 nested in object (value position), 5 in an object at the name position
 	Pad     int        `json:"pad,omitempty"`    // the value is preceded by a string member of this many bytes (large outputs, flush thresholds)
 	Poison  bool       `json:"poison,omitempty"` // a MarshalWrite that fails half way runs first (pooled encoder state)
 	Plain   bool       `json:"plain,omitempty"`  // writers are plain io.Writers instead of *bytes.Buffer
@@ -65,6 +65,9 @@ func genOpts(t *rapid.T, label string) []opt.Spec {
 			out = append(out, opt.Spec{Name: "DefaultOptionsV2"})
 		case 2:
 			out = append(out, opt.Spec{Name: rapid.SampledFrom([]string{"WithIndent", "WithIndentPrefix"}).Draw(t, label+"ind"), S: rapid.SampledFrom([]string{"", " ", "\t", "  \t"}).Draw(t, label+"inds")})
+		case 4:
+			// the escape options and PreserveRawStrings, which interact on raw strings
+			out = append(out, opt.Spec{Name: rapid.SampledFrom([]string{"EscapeForJS", "EscapeForHTML", "PreserveRawStrings", "PreserveRawStrings", "EscapeForJS"}).Draw(t, label+"esc"), B: rapid.IntRange(0, 3).Draw(t, label+"val") != 0})
 		case 3:
 			// each whitespace option alone: the un-write and flush logic looks at the bytes before a member
 			out = append(out, opt.Spec{Name: rapid.SampledFrom([]string{"SpaceAfterColon", "SpaceAfterComma", "SpaceAfterComma", "Multiline"}).Draw(t, label+"ws"), B: rapid.IntRange(0, 3).Draw(t, label+"val") != 0})
@@ -80,7 +83,7 @@ var poolKeys = []string{"pool:KeyT", "pool:KeyA"}
 
 func genCase(user bool) func(t *rapid.T) Case {
 	return func(t *rapid.T) Case {
-		c := Case{EncOpts: genOpts(t, "enc"), Opts: genOpts(t, "call"), Entry: rapid.IntRange(0, 4).Draw(t, "entry")}
+		c := Case{EncOpts: genOpts(t, "enc"), Opts: genOpts(t, "call"), Entry: rapid.SampledFrom([]int{0, 0, 1, 1, 2, 2, 3, 3, 4, 4, 5}).Draw(t, "entry")}
 		cfg := tv.Cfg{MaxDepth: rapid.IntRange(1, 4).Draw(t, "maxdepth"), Tags: true, Embedding: true, BigStructs: true, EscapeNames: true, Raw: true, Fallbacks: true, Formats: rapid.Bool().Draw(t, "formats"),
 			TimeKinds: true, DurNoFormat: true, LegacyString: true,
 			MapKeys: []string{"string", "string", "int", "int8", "int64", "uint", "uint8", "uint64", "float64", "float32", "bool", "any", "any"}}
@@ -345,6 +348,12 @@ func Run(c Case) error {
 				if merr = enc.WriteToken(jsontext.String("k")); merr != nil {
 					return
 				}
+			case 5:
+				// the value is marshaled where an object name is required: only what
+				// encodes as a JSON string may succeed
+				if merr = enc.WriteToken(jsontext.BeginObject); merr != nil {
+					return
+				}
 			}
 			merr = json.MarshalEncode(enc, in, callOpts...)
 			if merr != nil {
@@ -356,6 +365,11 @@ func Run(c Case) error {
 				wantNL = true
 			case 4:
 				merr = enc.WriteToken(jsontext.EndObject)
+				wantNL = true
+			case 5:
+				if merr = enc.WriteToken(jsontext.Null); merr == nil {
+					merr = enc.WriteToken(jsontext.EndObject)
+				}
 				wantNL = true
 			}
 			if merr != nil {
@@ -550,7 +564,7 @@ func genWide(t *rapid.T) Case {
 	if dup {
 		names[dst] = names[src]
 	}
-	c := Case{EncOpts: nil, Opts: nil, Entry: rapid.IntRange(0, 4).Draw(t, "entry")}
+	c := Case{EncOpts: nil, Opts: nil, Entry: rapid.SampledFrom([]int{0, 0, 1, 1, 2, 2, 3, 3, 4, 4, 5}).Draw(t, "entry")}
 	if rapid.IntRange(0, 3).Draw(t, "det") == 0 {
 		c.Opts = append(c.Opts, opt.B("Deterministic", true))
 	}
@@ -612,7 +626,7 @@ func opVal(k int, s []byte, n int64) tv.Val {
 // genTimes builds values dominated by time.Time / time.Duration fields under
 // every documented format, with fixed zones whose names are arbitrary text.
 func genTimes(t *rapid.T) Case {
-	c := Case{EncOpts: genOpts(t, "enc"), Opts: genOpts(t, "call"), Entry: rapid.IntRange(0, 4).Draw(t, "entry")}
+	c := Case{EncOpts: genOpts(t, "enc"), Opts: genOpts(t, "call"), Entry: rapid.SampledFrom([]int{0, 0, 1, 1, 2, 2, 3, 3, 4, 4, 5}).Draw(t, "entry")}
 	c.Opts = append(c.Opts, opt.B("ExperimentalSupportFormatTag", true))
 	d := &tv.Desc{K: "struct", ID: 1}
 	n := rapid.IntRange(1, 4).Draw(t, "nfields")
